@@ -7,7 +7,7 @@ Open Scope Z_scope.
 
 Definition eps0 : Z := 2.
 
-Definition node1 : nodeobj := mkNodeObj 1 (mk_alloc 8000 1073741824 10 0).
+Definition node1 : nodever := mkNodeVer 1 (mk_alloc 8000 1073741824 10 0) None None false false 0.
 Definition pod1 : pod := mkPod 1 (Some 2%positive) (Some 1%positive) PRunning false 1 0 false (mk_req 2000 1048576 0).
 
 (* node added, running pod added, node removed, node added again *)
@@ -42,18 +42,39 @@ Proof. split; [discriminate|]. split; [|discriminate]. vm_compute. discriminate.
 Example f4_hist_ok : hist_ok eps0 empty_cache f4_history /\ hist_ok eps0 empty_cache (build_events (final_objects f4_history)).
 Proof.
   assert (Hp : pod_ok pod1) by exact pod1_ok.
-  assert (Ha : sc (no_alloc node1) <> None) by (vm_compute; discriminate).
+  assert (Ha : sc (nv_base node1) <> None) by (vm_compute; discriminate).
   split.
-  - simpl. repeat split; auto. intros old H. vm_compute in H. discriminate.
-  - vm_compute build_events. simpl. repeat split; auto. intros old H. vm_compute in H. discriminate.
+  - simpl. repeat split; auto; try (intros _; vm_compute; reflexivity). intros old H. vm_compute in H. discriminate.
+  - vm_compute build_events. simpl. repeat split; auto; try (intros _; vm_compute; reflexivity). intros old H. vm_compute in H. discriminate.
 Qed.
 
 Local Instance pod_eq_dec : EqDecision pod.
 Proof. solve_decision. Defined.
-Local Instance nodeobj_eq_dec : EqDecision nodeobj.
+Local Instance nodever_eq_dec : EqDecision nodever.
 Proof. solve_decision. Defined.
 
 Example f4_same_final :
   o_pods (final_objects f4_history) = o_pods (final_objects (build_events (final_objects f4_history))) /\
   o_nodes (final_objects f4_history) = o_nodes (final_objects (build_events (final_objects f4_history))).
 Proof. split; apply (bool_decide_unpack _); vm_compute; exact I. Qed.
+
+(* ---------- finding (repaired by d373588): a removed oversubscription annotation left its amount behind ---------- *)
+
+(* node1 oversold by 2 cpu (annotation volcano.sh/oversubscription-cpu = 2000) *)
+Definition node1_over : nodever :=
+  mkNodeVer 1 (mk_alloc 8000 1073741824 10 0) (Some (2000 * grid)) None true false 0.
+
+(* the node is delivered with the annotation, then without it: before the fix
+   NodeInfo.setOversubscription only ever overwrote OversubscriptionResource, so Allocatable
+   and Idle kept the 2 oversold cpu (10 cpu), whereas a cache that only sees the final object
+   shows 8 cpu (and so does every Snapshot clone) *)
+Definition over_history : list event := [ENode node1_over; ENode node1].
+
+Theorem converges_over_prefix_refuted :
+  exists h, view_eqb (run_over_prefix eps0 empty_cache h) (build eps0 (final_objects h)) = false /\
+            cache_invb (run_over_prefix eps0 empty_cache h) = true.
+Proof. exists over_history. split; vm_compute; reflexivity. Qed.
+
+Example over_history_fixed :
+  view_eqb (run eps0 empty_cache over_history) (build eps0 (final_objects over_history)) = true.
+Proof. vm_compute. reflexivity. Qed.
